@@ -417,8 +417,8 @@ impl Scenario for InterpDriver {
             stub: &["reference trace = single-stepping a fresh Interpreter over the same program with a healthy stdout"],
             assumptions: &["programs whose next step would allocate more than ~1 MiB per operand (huge LSHIFT of a non-zero value, NUM2BIN to > 1 MiB, CAT/MUL of > 1 MiB operands) are dropped by the reference pass: C16 does not bound memory", "a worker abort caused by allocator exhaustion is recorded as outcome `resource`, not a violation"],
             required_probes: &["ref_finished", "ref_err", "if_branch_spliced", "run_after_next", "next_after_none", "next_after_err", "stdout_fault_during_run", "fork_applied", "checksig_reached", "multisig_reached", "codeseparator_in_spliced_branch"],
-            quick_runs: 20_000,
-            thorough_runs: 2_000_000,
+            quick_runs: 60000,
+            thorough_runs: 4000000,
             rlimit_as: 6 << 30,
             alloc_abort_is_violation: false,
         }
